@@ -199,6 +199,8 @@ type Deviation struct {
 	Target   []Step     `json:"target"`
 	Deviates []*Deviate `json:"deviates"`
 	Invalid  string     `json:"invalid,omitempty"`
+	// BadPrefix: as for Augment.
+	BadPrefix int `json:"bad_prefix,omitempty"`
 }
 
 // PosixModule is the name goyang looks for when it interprets posix-pattern.
